@@ -9,8 +9,12 @@
    [cfg_valid] is what verify_hyperparameters guarantees.  Guards:
    [documented_exception] (several trapezoid trusts sharing a conditional
    feature while Edgeworth trusts exist - tolerated by the property) and
-   [trap_mono_cond_with_edgeworth] (known finding D1, refuted below). *)
-From TFL Require Import Proofs.LatticeSpecFacts Proofs.LatticeFinalize.
+   [trap_mono_cond_with_edgeworth] (known finding D1, refuted below).
+   The theorems [..._outside_trapezoid_conditionals] carry NO D1 guard: inside
+   the D1 class too, the result is monotone along every monotone dimension that
+   is not the conditional feature of a trapezoid trust; D1 is exactly the
+   failure along such a conditional dimension. *)
+From TFL Require Import Proofs.LatticeSpecFacts Proofs.LatticeFinalize Proofs.LatticeMonoDims.
 Open Scope Q_scope.
 
 Theorem C01_finalize_any_mode_monotone : forall c, cfg_valid c -> forall W,
@@ -42,6 +46,32 @@ Theorem C01_trapezoid : forall c, cfg_valid c -> forall ran Wd t,
   block_ok c ran -> ~ documented_exception c -> In t (l_trap c) -> trapezoid_holds (l_shape c) t (LC c ran Wd).
 Proof. exact constraint_trapezoid. Qed.
 Print Assumptions C01_trapezoid.
+
+(* D1 narrowed to the dimensions it can affect.  No configuration class is
+   excluded: for EVERY valid configuration and every monotone dimension d that is
+   not the conditional feature of a trapezoid trust (or any monotone d when no
+   Edgeworth trust is configured) the result is non-decreasing along d. *)
+Theorem C01_finalize_monotone_outside_trapezoid_conditionals : forall c, cfg_valid c -> forall W d,
+  In d (mono_dims (l_monos c)) ->
+  (l_edge c = [] \/ forall t, In t (l_trap c) -> snd (fst t) <> d) ->
+  mono_along (l_shape c) d (finalize c W).
+Proof. exact finalize_monotone_dim. Qed.
+Print Assumptions C01_finalize_monotone_outside_trapezoid_conditionals.
+
+Theorem C01_monotone_outside_trapezoid_conditionals : forall c, cfg_valid c -> forall ran Wd d,
+  block_ok c ran -> In d (mono_dims (l_monos c)) ->
+  (l_edge c = [] \/ forall t, In t (l_trap c) -> snd (fst t) <> d) ->
+  mono_along (l_shape c) d (LC c ran Wd).
+Proof. exact constraint_monotone_dim. Qed.
+Print Assumptions C01_monotone_outside_trapezoid_conditionals.
+
+(* contrapositive: the strict constraint can only fail monotonicity along the
+   conditional dimension of a trapezoid trust, with an Edgeworth trust present *)
+Theorem C01_monotone_failure_only_along_trapezoid_conditional : forall c, cfg_valid c -> forall ran Wd d,
+  block_ok c ran -> In d (mono_dims (l_monos c)) -> ~ mono_along (l_shape c) d (LC c ran Wd) ->
+  l_edge c <> [] /\ exists t, In t (l_trap c) /\ snd (fst t) = d.
+Proof. exact constraint_monotone_failure_dim. Qed.
+Print Assumptions C01_monotone_failure_only_along_trapezoid_conditional.
 
 (* one- and two-sided bounds, no guard at all *)
 Theorem C01_bounds : forall c, cfg_valid c -> forall ran Wd,
@@ -87,6 +117,40 @@ Proof.
   vm_compute. reflexivity.
 Qed.
 Print Assumptions C01_refuted_trap_mono_cond.
+
+(* the D1 witness fails exactly along the conditional dimension of its trapezoid
+   trust (dimension 1) and - by the theorem above - is monotone along the other
+   monotone dimension *)
+Theorem C01_refuted_trap_mono_cond_along_conditional_only :
+  exists c W d, cfg_valid c /\ trap_mono_cond_with_edgeworth c /\ block_ok c true /\
+    In d (mono_dims (l_monos c)) /\ (exists t, In t (l_trap c) /\ snd (fst t) = d) /\
+    ~ mono_along (l_shape c) d (LC c true W) /\
+    (forall d', In d' (mono_dims (l_monos c)) -> d' <> d -> mono_along (l_shape c) d' (LC c true W)).
+Proof.
+  exists d1_cfg, d1_kernel, 1%nat.
+  split; [exact d1_cfg_valid|]. split.
+  { split; [discriminate|]. exists (0%nat, 1%nat, 1%Z). split; [left; reflexivity|reflexivity]. }
+  split; [left; reflexivity|]. split; [right; left; reflexivity|].
+  split; [exists (0%nat, 1%nat, 1%Z); split; [left; reflexivity|reflexivity]|]. split.
+  - intros H. specialize (H [0;0;0;0]%nat ltac:(repeat constructor) ltac:(cbn; lia)).
+    apply Qle_bool_iff in H. vm_compute in H. discriminate.
+  - intros d' Hd' Hne. apply constraint_monotone_dim; [exact d1_cfg_valid|left; reflexivity|exact Hd'|].
+    right. intros t [<-|[]]. cbn [fst snd]. congruence.
+Qed.
+Print Assumptions C01_refuted_trap_mono_cond_along_conditional_only.
+
+(* the hypotheses of the unguarded per-dimension theorems are satisfiable by a
+   configuration of the D1 class: dimension 0 of d1_cfg *)
+Example C01_outside_conditionals_satisfiable_in_d1_class :
+  cfg_valid d1_cfg /\ trap_mono_cond_with_edgeworth d1_cfg /\ block_ok d1_cfg true /\
+  In 0%nat (mono_dims (l_monos d1_cfg)) /\
+  (l_edge d1_cfg = [] \/ forall t, In t (l_trap d1_cfg) -> snd (fst t) <> 0%nat).
+Proof.
+  split; [exact d1_cfg_valid|]. split.
+  { split; [discriminate|]. exists (0%nat, 1%nat, 1%Z). split; [left; reflexivity|reflexivity]. }
+  split; [left; reflexivity|]. split; [left; reflexivity|].
+  right. intros t [<-|[]]. cbn. discriminate.
+Qed.
 
 (* the premises of the positive theorems are satisfiable *)
 Example C01_premises_satisfiable :
